@@ -584,8 +584,8 @@ SID_COLS = {'bed3': {0: 'chromosome'}, 'bed6': {0: 'chromosome', 3: 'name'}, 'be
             'npk': {0: 'chromosome', 3: 'name'}, 'bdg': {0: 'chromosome'}, 'wig': {0: 'chromosome'},
             'gtf': {0: 'chromosome', 2: 'feature_type'}, 'gff': {0: 'chromosome', 2: 'feature_type'},
             'pairs': {1: 'chrom1', 3: 'chrom2'}, 'sam': {0: 'name', 2: 'chromosome'}, 'gfa': {1: 'name'},
-            'vcf': {0: 'chromosome'}, 'vcfgt': {0: 'chromosome'}, 'vcfph': {0: 'chromosome'}, 'vcfhap': {0: 'chromosome'},
-            'fastq': {0: 'name'}, 'fasta2': {0: 'name'}, 'fasta': {0: 'name'}}
+            'vcf': {0: 'chromosome'}, 'vcfgt': {0: 'chromosome'}, 'vcfph': {0: 'chromosome'}, 'vcfhap': {0: 'chromosome'}}
+# (FASTQ / FASTA names go through string_array(ragged text), which accepts only-empty names since /repo b1580f3)
 EAGER = ('gtf', 'gff', 'fasta')
 
 
